@@ -22,7 +22,8 @@ RULE = ("random signatures (0-3 positional-or-keyword parameters, 0-2 keyword-on
         "1-3 steps by position or by name, context attached before or after partial) and in near-miss variants "
         "(bool/int/float/str flips, date<->midnight datetime, naive<->aware, reordered list, renamed dict key, "
         "changed/added context argument); non-trivial = distinct families for which >=2 presentations were "
-        "observed to share one result and >=1 near-miss was observed to run the body again")
+        "observed to share one result and >=1 near-miss was observed to run the body again"
+        '; presentations include keyword partials completed by position')
 ASSUMPTIONS = ["the canonical form defines value equality: floats by repr, datetimes by fields + offset",
                "parameters left to their defaults are not bound: f(1) and f(1, y=<default>) are different keys",
                "FunctionReference arguments are encoded with the fields qualifiedName, partialArgs (null when empty), "
